@@ -5,7 +5,14 @@ sys.path.insert(0, os.path.dirname(os.path.abspath(__file__)))
 import vlib
 
 FAMILIES = {
+    "C01": "fam_gensign", "C02": "fam_gensign", "C03": "fam_gensign", "C04": "fam_gensign",
+    "C05": "fam_keyid", "C19": "fam_keyid",
+    "C06": "fam_attest", "C16": "fam_attest",
     "C07": "fam_shim", "C08": "fam_shim", "C09": "fam_shim", "C10": "fam_shim",
+    "C11": "fam_conc",
+    "C12": "fam_wire", "C13": "fam_wire", "C20": "fam_wait",
+    "C14": "fam_reqparam", "C15": "fam_reqparam",
+    "C17": "fam_signer", "C18": "fam_signer",
 }
 
 
